@@ -237,6 +237,10 @@ where
         T::one(),
         (pos_margin * (0.1).as_T()) / cones.degree().as_T(),
     );
+    // the margin of a badly scaled vector is only known to rounding, and a
+    // shift that is tiny relative to it would be absorbed: keep the target
+    // above the rounding error of the margin that is being corrected
+    let target = T::max(target, -min_margin * T::epsilon().sqrt());
 
     if min_margin <= T::zero() {
         // at least some component is outside its cone
